@@ -349,6 +349,7 @@ SPECS["C03"] = dict(
     jobs=[
         rapid("TestC03Core", 600, 8000, sq=4, st=16),
         rapid("TestC03Session", 120, 1500, sq=4, st=16),
+        rapid("TestC03WindowShrunk", 300, 6000, sq=4, st=16),
     ],
 )
 
